@@ -42,6 +42,7 @@ def run(ctx):
             out = {t["name"]: t["ty"] for t in im["types"]}.get("Output")
             ctx.ob("E1.groups", "%s/HashToPoint::Output" % im["self"], out == pinned["group_of_signature"][im["self"]], "%s hashes into %s" % (im["self"], out))
     K.check_keygen(ctx, P)
+    K.check_seeded_derivation(ctx, P)
     K.check_core_table(ctx, P)
     # compressed point encoding for the byte form of keys and proofs of possession
     for ty in ("PublicKey", "MultiPublicKey", "ProofOfPossession"):
